@@ -19,6 +19,7 @@ import (
 	"github.com/database64128/shadowsocks-go"
 	"github.com/database64128/shadowsocks-go/mmap"
 	"github.com/database64128/shadowsocks-go/ss2022"
+	"github.com/database64128/shadowsocks-go/verifhook"
 	"go.uber.org/zap"
 )
 
@@ -115,6 +116,8 @@ func (s *ManagedServer) saveToFile() error {
 
 func (s *ManagedServer) dequeueSave(ctx context.Context) {
 	for {
+		verifhook.At("cred.dequeueSave.top")
+
 		// Wait for incoming save job.
 		select {
 		case <-s.saveQueue:
@@ -138,11 +141,13 @@ func (s *ManagedServer) dequeueSave(ctx context.Context) {
 		// It is without doubt that taking the read lock is enough for cachedCredMap.
 		// As for cachedContent, the only other place that reads and writes it is LoadFromFile,
 		// which takes the write lock. So it is safe to take just the read lock here.
+		verifhook.At("cred.dequeueSave.beforeSave")
 		s.mu.RLock()
 		if err := s.saveToFile(); err != nil {
 			s.logger.Error("Failed to save credentials", zap.Error(err))
 		}
 		s.mu.RUnlock()
+		verifhook.At("cred.dequeueSave.afterSave")
 	}
 }
 
@@ -203,6 +208,7 @@ func (s *ManagedServer) AddCredential(username string, uPSK []byte) error {
 	}
 	s.cachedCredMap[username] = uc
 	s.cachedUserLookupMap[uc.uPSKHash] = c
+	verifhook.At("cred.add.beforeLive")
 	// Publish to the live lookup maps before releasing the lock, so that
 	// concurrent operations are applied to them in the same order as to the cache.
 	s.updateProdULM(func(ulm ss2022.UserLookupMap) {
@@ -243,6 +249,7 @@ func (s *ManagedServer) UpdateCredential(username string, uPSK []byte) error {
 	uc.uPSKHash = uPSKHash
 	delete(s.cachedUserLookupMap, oldUPSKHash)
 	s.cachedUserLookupMap[uc.uPSKHash] = c
+	verifhook.At("cred.update.beforeLive")
 	s.updateProdULM(func(ulm ss2022.UserLookupMap) {
 		delete(ulm, oldUPSKHash)
 		ulm[uPSKHash] = c
@@ -262,6 +269,7 @@ func (s *ManagedServer) DeleteCredential(username string) error {
 	}
 	delete(s.cachedCredMap, username)
 	delete(s.cachedUserLookupMap, uc.uPSKHash)
+	verifhook.At("cred.delete.beforeLive")
 	s.updateProdULM(func(ulm ss2022.UserLookupMap) {
 		delete(ulm, uc.uPSKHash)
 	})
@@ -322,6 +330,7 @@ func (s *ManagedServer) LoadFromFile() error {
 	s.cachedContent = strings.Clone(content)
 	s.cachedUserLookupMap = userLookupMap
 	s.cachedCredMap = credMap
+	verifhook.At("cred.load.beforeLive")
 	// Replace the live lookup maps before releasing the lock: the cache must not
 	// be read (cloned) while another operation mutates it, and a concurrent
 	// add/update/delete must not be overwritten by a stale clone.
